@@ -69,7 +69,7 @@ def find_default_config() -> Optional[str]:
 def list_servers(config_path: str) -> None:
     """List all available servers in the configuration."""
     try:
-        with open(config_path, "r") as f:
+        with open(config_path, "r", encoding="utf-8") as f:
             config = json.load(f)
 
         servers = config.get("mcpServers", {})
